@@ -38,6 +38,9 @@ struct CheckDef {
         bool fips;              // needs the FIPS_MODE archive
         const char *rule;       // how cases are generated and what distinct_nontrivial counts
         std::vector<const char *> assumptions;
+        // optional second pass of a std-build check against the FIPS_MODE archive (run by the FIPS binary; ./run merges its evidence)
+        std::vector<SimWeight> fips_companion = {};
+        uint64_t comp_quick_runs = 0, comp_thorough_runs = 0;
 };
 
 static std::vector<CheckDef> g_checks = {
@@ -92,7 +95,10 @@ static std::vector<CheckDef> g_checks = {
           { "secret set: raw keys, every encryption/decryption round key, GHASH key and stored powers, E(key2, tweak); 16-byte blocks with fewer than 8 "
             "distinct byte values are not used as needles",
             "the dead-stack search is restricted to 4 KiB chunks that differ from the pre-call poison (a chunk identical to the poison cannot hold a "
-            "secret)" } },
+            "secret)",
+            "a second pass runs the same monitor over the FIPS_MODE archive (one-shot and streaming clients through the gated isal_ API, and the "
+            "FIPS gate enumeration with failed / not-yet-run self-tests): the gated wrappers add code of their own around the kernels" },
+          { { "oneshot", 4 }, { "stream", 2 }, { "fipsgate", 3 } }, 16000, 1000000 },
         { "C19", "exploration", { { "hashmgr", 2 }, { "stream", 3 }, { "oneshot", 3 }, { "dispatch", 1 }, { "l2mgr", 3 } }, 40000, 4000000, 50, 900, false, false,
           "cases: every library call of the mixed batch (hash managers, streaming objects, one-shot AES, dispatch resolvers) goes through the "
           "register-poisoning trampoline; rsp, rbx, rbp, r12-r15, DF, MXCSR control bits, x87 CW and 64 canary bytes above the callee's frame "
@@ -247,6 +253,7 @@ struct Exec {
 
 Sim *get_sim_by_name(const std::string &n) { return get_sim(n); }
 
+void fips_mark_self_tests_passed();
 static Env *g_env = nullptr;
 static Env &env()
 {
@@ -260,6 +267,8 @@ static void exec_plan(Sim *sim, const Plan &p, uint64_t hidden_seed, RunResult &
         Env &e = env();
         e.begin_run(hidden_seed, &r);
         e.mem.set_addr_policy(mix64(p.seed, hash_str("addr-policy")));
+        if (g_fips_build && p.sim != "fipsgate" && p.sim != "fipsrace")
+                fips_mark_self_tests_passed();
         try {
                 sim->execute(p, e, r);
         } catch (RunAbort &) {
@@ -761,7 +770,17 @@ static int run_check(const std::string &prop, const std::string &tier)
                 fprintf(stderr, "HARNESS: no check registered for %s\n", prop.c_str());
                 return 2;
         }
-        const CheckDef &cd = *cdp;
+        CheckDef cdv = *cdp;
+        bool companion = false;
+        if (g_fips_build && !cdv.fips && !cdv.fips_companion.empty()) {
+                // companion pass: the same property and monitors, workloads run against the FIPS_MODE archive
+                companion = true;
+                cdv.sims = cdv.fips_companion;
+                cdv.quick_runs = cdv.comp_quick_runs;
+                cdv.thorough_runs = cdv.comp_thorough_runs;
+                cdv.fips = true;
+        }
+        const CheckDef &cd = cdv;
         if (cd.fips != g_fips_build) {
                 fprintf(stderr, "HARNESS: check %s needs the %s build\n", prop.c_str(), cd.fips ? "fips" : "std");
                 return 2;
@@ -1050,10 +1069,10 @@ static int run_check(const std::string &prop, const std::string &tier)
         ev += " \"assumptions\":" + assum + strfmt(",\n \"wall_s\":%.2f,\n \"violations\":%d\n}\n", wall, unknown);
         mkdir("/verif/evidence", 0755);
         const char *evd = getenv("VERIF_EVIDENCE_DIR");
-        std::string evpath = std::string(evd ? evd : "/verif/evidence") + "/" + prop + ".json";
+        std::string evpath = std::string(evd ? evd : "/verif/evidence") + "/" + prop + (companion ? ".fips-pass.json" : ".json");
         write_file(evpath, ev);
-        printf("%s %s: %llu runs, %llu distinct states, %llu steps, %.1fs, %d violation(s), %d known finding(s), %zu harness error(s)\n",
-               prop.c_str(), tier.c_str(), (unsigned long long) acc.runs, (unsigned long long) distinct, (unsigned long long) acc.steps, wall,
+        printf("%s %s%s: %llu runs, %llu distinct states, %llu steps, %.1fs, %d violation(s), %d known finding(s), %zu harness error(s)\n",
+               prop.c_str(), tier.c_str(), companion ? " (FIPS-build pass)" : "", (unsigned long long) acc.runs, (unsigned long long) distinct, (unsigned long long) acc.steps, wall,
                unknown, known, harness_errors.size());
         for (auto &h : harness_errors)
                 printf("HARNESS-ERROR: %s\n", h.c_str());
